@@ -1,0 +1,151 @@
+//go:build verif
+
+package align
+
+// Contracts for property C15 (masking), second part: MaskOccurences, MaskUnique, Replace.
+// Comments only; compiled (to nothing) only under the build tag "verif". Shared vocabulary in zz_contracts_verif.go.
+
+// ---- the selection rule of "mask rare residues" ----
+
+// residue of the reference row in column c (meaningful when refseq names a row)
+//@ pure func c15b_ref(a *align, refseq string, c int) int = a.seqmap[refseq].sequence[c]
+// row r takes part in the count of column c: no reference given, or r is not the reference row and its residue differs from the reference residue (or the reference has a gap there)
+//@ pure func c15b_in(a *align, refseq string, r int, c int) bool = refseq == "" || (rowname(a, r) != refseq && (cell(a, r, c) != c15b_ref(a, refseq, c) || c15b_ref(a, refseq, c) == '-'))
+// number of rows r < n taking part in the count of column c whose residue is x
+//@ pure func c15b_cnt(a *align, refseq string, c int, x int, n int) int = (n <= 0 ? 0 : c15b_cnt(a, refseq, c, x, n-1) + (c15b_in(a, refseq, n-1, c) && cell(a, n-1, c) == x ? 1 : 0))
+// most frequent counted residue code below k in column c, ties to the lowest code; -1 when no counted residue code below k occurs
+//@ pure func c15b_maj(a *align, refseq string, c int, k int) int = (k <= 0 ? -1 : (c15b_maj(a, refseq, c, k-1) == -1 ? (c15b_cnt(a, refseq, c, k-1, nrows(a)) > 0 ? k-1 : -1) : (c15b_cnt(a, refseq, c, k-1, nrows(a)) > c15b_cnt(a, refseq, c, c15b_maj(a, refseq, c, k-1), nrows(a)) ? k-1 : c15b_maj(a, refseq, c, k-1))))
+
+// two-state vocabulary (old = at function entry)
+//@ pure func c15b_err(a *align, refseq string, maskreplace string) bool = ((maskreplace == "AMBIG" || maskreplace == "") && a.alphabet != AMINOACIDS && a.alphabet != NUCLEOTIDS) || (maskreplace != "AMBIG" && maskreplace != "" && maskreplace != "GAP" && maskreplace != "MAJ" && len(maskreplace) != 1) || (refseq != "" && !has(a.seqmap, refseq))
+//@ pure func c15b_rep(a *align, refseq string, maskreplace string, c int) int = (maskreplace == "GAP" ? '-' : (maskreplace == "MAJ" ? old(c15b_maj(a, refseq, c, 130)) : (maskreplace == "AMBIG" || maskreplace == "" ? (a.alphabet == AMINOACIDS ? 'X' : 'N') : maskreplace[0])))
+// count, in the ORIGINAL column c, of the residue that row r holds there
+//@ pure func c15b_occ(a *align, refseq string, r int, c int) int = old(c15b_cnt(a, refseq, c, cell(a, r, c), nrows(a)))
+//@ pure func c15b_sel(a *align, refseq string, maxocc int, r int, c int) bool = old(c15b_in(a, refseq, r, c)) && old(cell(a, r, c)) != '-' && c15b_occ(a, refseq, r, c) <= maxocc
+//@ pure func c15b_new(a *align, refseq string, maxocc int, maskreplace string, r int, c int) int = (c15b_sel(a, refseq, maxocc, r, c) ? c15b_rep(a, refseq, maskreplace, c) : old(cell(a, r, c)))
+
+//@ func (*align).MaskOccurences
+//@   props C15
+//@   requires wfa(a) && owns(a)
+//@   requires forall r, c :: 0 <= r && r < nrows(a) && 0 <= c && c < a.length ==> cell(a, r, c) < 130
+//@   ensures (err != nil) == old(c15b_err(a, refseq, maskreplace))
+//@   ensures err != nil ==> forall r, c :: 0 <= r && r < nrows(a) && 0 <= c && c < a.length ==> cell(a, r, c) == old(cell(a, r, c))
+//@   ensures err == nil ==> forall r, c :: 0 <= r && r < nrows(a) && 0 <= c && c < a.length ==> cell(a, r, c) == c15b_new(a, refseq, maxOccurence, maskreplace, r, c)
+//@   ensures a.length == old(a.length) && nrows(a) == old(nrows(a)) && (forall r :: 0 <= r && r < nrows(a) ==> row(a, r) == old(row(a, r)) && rowname(a, r) == old(rowname(a, r)) && sameslice(row(a, r).sequence, old(row(a, r).sequence)))
+//@   modifies mem(uint8)
+//@   loop 1
+//@     invariant err == nil && 0 <= i && (i <= a.length || i == 0)
+//@     invariant !old(c15b_err(a, refseq, maskreplace))
+//@     invariant refseq != "" ==> refSequence == a.seqmap[refseq] && refSequence != nil
+//@     invariant maskreplace != "MAJ" ==> rep == c15b_rep(a, refseq, maskreplace, 0)
+//@     invariant forall r, c :: 0 <= r && r < nrows(a) && 0 <= c && c < i && c < a.length ==> cell(a, r, c) == c15b_new(a, refseq, maxOccurence, maskreplace, r, c)
+//@     invariant forall r, c :: 0 <= r && r < nrows(a) && i <= c && c < a.length ==> cell(a, r, c) == old(cell(a, r, c))
+//@     decreases a.length - i
+//@   loop 2
+//@     invariant 0 <= i && i < a.length && len(occurences) == 130 && fresh(occurences) && allocated(occurences) && len(indices) == 130 && fresh(indices) && allocated(indices)
+//@     invariant forall x :: 0 <= x && x < 130 ==> occurences[x] == 0
+//@     invariant forall x :: 0 <= x && x < $i ==> len(indices[x]) == 0 && fresh(indices[x]) && allocated(indices[x]) && base(indices[x]) != base(occurences)
+//@     invariant forall x, y :: 0 <= x && x < y && y < $i ==> base(indices[x]) != base(indices[y])
+//@     decreases 130 - $i
+//@   loop 3
+//@     invariant 0 <= i && i < a.length && len(occurences) == 130 && fresh(occurences) && allocated(occurences) && len(indices) == 130 && fresh(indices) && allocated(indices)
+//@     invariant forall x :: 0 <= x && x < 130 ==> occurences[x] == old(c15b_cnt(a, refseq, i, x, $i)) && len(indices[x]) == occurences[x] && occurences[x] >= 0
+//@     invariant forall x :: 0 <= x && x < 130 ==> fresh(indices[x]) && allocated(indices[x]) && base(indices[x]) != base(occurences)
+//@     invariant forall x, y :: 0 <= x && x < y && y < 130 ==> base(indices[x]) != base(indices[y])
+//@     invariant forall x, k, r :: 0 <= x && x < 130 && 0 <= k && k < len(indices[x]) && r == indices[x][k] ==> 0 <= r && r < $i && old(cell(a, r, i)) == x && old(c15b_in(a, refseq, r, i)) && old(c15b_cnt(a, refseq, i, x, r)) == k
+//@     invariant forall r, x :: 0 <= r && r < $i && old(c15b_in(a, refseq, r, i)) && x == old(cell(a, r, i)) ==> 0 <= old(c15b_cnt(a, refseq, i, x, r)) && old(c15b_cnt(a, refseq, i, x, r)) < len(indices[x]) && indices[x][old(c15b_cnt(a, refseq, i, x, r))] == r
+//@     decreases nrows(a) - $i
+//@   loop 4
+//@     modifies nothing
+//@     invariant 0 <= i && i < a.length && len(occurences) == 130 && 0 <= max
+//@     invariant (max == 0) == (old(c15b_maj(a, refseq, i, $i)) == -1)
+//@     invariant max > 0 ==> rep == old(c15b_maj(a, refseq, i, $i)) && max == occurences[rep] && 0 <= rep && rep < $i
+//@     invariant forall x :: 0 <= x && x < $i ==> occurences[x] <= max
+//@     decreases 130 - $i
+//@   loop 5
+//@     modifies mem(uint8), indices[*]
+//@     invariant 0 <= i && i < a.length && len(occurences) == 130 && len(indices) == 130 && fresh(indices)
+//@     invariant forall x :: $i <= x && x < 130 ==> sameslice(indices[x], entry(indices[x]))
+//@     invariant forall r :: 0 <= r && r < nrows(a) ==> cell(a, r, i) == (old(cell(a, r, i)) < $i ? c15b_new(a, refseq, maxOccurence, maskreplace, r, i) : old(cell(a, r, i)))
+//@     invariant forall r, c :: 0 <= r && r < nrows(a) && 0 <= c && c < i ==> cell(a, r, c) == c15b_new(a, refseq, maxOccurence, maskreplace, r, c)
+//@     invariant forall r, c :: 0 <= r && r < nrows(a) && i < c && c < a.length ==> cell(a, r, c) == old(cell(a, r, c))
+//@     decreases 130 - $i
+//@   loop 6
+//@     modifies mem(uint8)
+//@     invariant 0 <= i && i < a.length && 0 <= c && c < 130 && len(indices) == 130
+//@     invariant forall r :: 0 <= r && r < nrows(a) ==> cell(a, r, i) == (old(cell(a, r, i)) < c ? c15b_new(a, refseq, maxOccurence, maskreplace, r, i) : (old(cell(a, r, i)) == c && old(c15b_in(a, refseq, r, i)) && old(c15b_cnt(a, refseq, i, c, r)) < $i ? rep : old(cell(a, r, i))))
+//@     invariant forall r, c :: 0 <= r && r < nrows(a) && 0 <= c && c < i ==> cell(a, r, c) == c15b_new(a, refseq, maxOccurence, maskreplace, r, c)
+//@     invariant forall r, c :: 0 <= r && r < nrows(a) && i < c && c < a.length ==> cell(a, r, c) == old(cell(a, r, c))
+//@     decreases len(indices[c]) - $i
+
+// MaskUnique = MaskOccurences with threshold 1: exactly the counted non-gap residues that occur once in their column are replaced
+//@ func (*align).MaskUnique
+//@   props C15
+//@   requires wfa(a) && owns(a)
+//@   requires forall r, c :: 0 <= r && r < nrows(a) && 0 <= c && c < a.length ==> cell(a, r, c) < 130
+//@   ensures (err != nil) == old(c15b_err(a, refseq, maskreplace))
+//@   ensures err != nil ==> forall r, c :: 0 <= r && r < nrows(a) && 0 <= c && c < a.length ==> cell(a, r, c) == old(cell(a, r, c))
+//@   ensures err == nil ==> forall r, c :: 0 <= r && r < nrows(a) && 0 <= c && c < a.length ==> cell(a, r, c) == c15b_new(a, refseq, 1, maskreplace, r, c)
+//@   ensures a.length == old(a.length) && nrows(a) == old(nrows(a)) && (forall r :: 0 <= r && r < nrows(a) ==> row(a, r) == old(row(a, r)) && rowname(a, r) == old(rowname(a, r)) && sameslice(row(a, r).sequence, old(row(a, r).sequence)))
+//@   modifies mem(uint8)
+
+// ---- reference coordinates (used by the mask command before Mask) ----
+
+// number of non-gap residues among the first n of s
+// RefCoordinates: ONE contract, in zz_contracts_c04b_verif.go (64-bit arithmetic, exposes the overflow of refstart+reflen).
+// (s, l) is the alignment window of the reference window (rs, rl) of row `name`: it starts at the (rs+1)-th non-gap residue
+// of the row and ends at its (rs+rl)-th (same vocabulary as that contract: c4b_ung counts the residues of a prefix)
+//@ pure func c15b_rc(a *align, name string, rs int, rl int, s int, l int) bool = 0 <= s && 1 <= l && s + l <= a.length && c4b_ung(c4b_ref(a, name), s) == rs && c4b_ref(a, name).sequence[s] != '-' && c4b_ung(c4b_ref(a, name), s + l) == rs + rl && c4b_ref(a, name).sequence[s+l-1] != '-'
+
+// ---- Replace ----
+
+// position c of row r lies inside an occurrence of pat in the ORIGINAL row, and that occurrence now reads rep
+// NOT COVERED (proof found for the function alone, `unknown` in the full C15 run): pure func c15b_inocc(sb *seqbag, pat string, rep string, r int, c int) bool = exists p :: 0 <= p && p <= c && c < p + len(pat) && p + len(pat) <= old(rowlen(sb, r)) && (forall j :: 0 <= j && j < len(pat) ==> old(cell(sb, r, p+j)) == pat[j] && cell(sb, r, p+j) == rep[j])
+
+// rows, order and names are untouched; only the residue storage of the rows is replaced (fresh storage per row);
+// a malformed regular expression is an error that changes nothing.
+// Plain (non-regex) replacement of equal length: the row lengths are kept;
+// one-character pattern and replacement: exactly the residues equal to the pattern are rewritten and nothing else.
+// (these clauses rest on the assumed contract of strings.Replace in specs/externs.spec; regex mode: frame only)
+//@ func (*seqbag).Replace
+//@   props C15
+//@   requires wf(sb)
+//@   ensures !regex ==> err == nil
+//@   ensures nrows(sb) == old(nrows(sb)) && (forall r :: 0 <= r && r < nrows(sb) ==> row(sb, r) == old(row(sb, r)) && rowname(sb, r) == old(rowname(sb, r)))
+//@   ensures err != nil ==> forall r :: 0 <= r && r < nrows(sb) ==> sameslice(row(sb, r).sequence, old(row(sb, r).sequence))
+//@   ensures !regex && len(old) >= 1 && len(old) == len(new) ==> forall r :: 0 <= r && r < nrows(sb) ==> rowlen(sb, r) == old(rowlen(sb, r))
+// NOT COVERED (proof found for the function alone, `unknown` in the full C15 run): ensures !regex && len(old) >= 1 && len(old) == len(new) ==> forall r, c :: 0 <= r && r < nrows(sb) && 0 <= c && c < rowlen(sb, r) ==> cell(sb, r, c) == old(cell(sb, r, c)) || c15b_inocc(sb, old, new, r, c)
+//@   ensures !regex && len(old) == 1 && len(new) == 1 ==> forall r, c :: 0 <= r && r < nrows(sb) && 0 <= c && c < rowlen(sb, r) ==> cell(sb, r, c) == (old(cell(sb, r, c)) == old[0] ? new[0] : old(cell(sb, r, c)))
+//@   modifies field(seq.sequence)
+//@   loop 1
+//@     invariant 0 <= seq && err == nil && r != nil
+//@     decreases nrows(sb) - seq
+//@   loop 2
+//@     invariant 0 <= seq && seq <= nrows(sb) && err == nil
+//@     invariant forall r :: seq <= r && r < nrows(sb) ==> sameslice(row(sb, r).sequence, old(row(sb, r).sequence))
+//@     invariant forall r :: 0 <= r && r < seq ==> fresh(row(sb, r).sequence) && allocated(row(sb, r).sequence)
+//@     invariant len(old) >= 1 && len(old) == len(new) ==> forall r :: 0 <= r && r < seq ==> rowlen(sb, r) == old(rowlen(sb, r))
+// NOT COVERED (proof found for the function alone, `unknown` in the full C15 run): invariant len(old) >= 1 && len(old) == len(new) ==> forall r, c :: 0 <= r && r < seq && 0 <= c && c < rowlen(sb, r) ==> cell(sb, r, c) == old(cell(sb, r, c)) || c15b_inocc(sb, old, new, r, c)
+//@     invariant len(old) == 1 && len(new) == 1 ==> forall r, c :: 0 <= r && r < seq && 0 <= c && c < rowlen(sb, r) ==> cell(sb, r, c) == (old(cell(sb, r, c)) == old[0] ? new[0] : old(cell(sb, r, c)))
+//@     decreases nrows(sb) - seq
+
+// (*seqbag).IterateChar: trusted contract in zz_contracts_c04b_verif.go
+
+// (*align).Replace = (*seqbag).Replace, then a check that every row still has the cached length (closure handed to IterateChar, verified
+// separately below; its effect on `err` is havocked at the call site, so the error result is NOT characterised here).
+// Proved: same rows, order, names, cached length; the length / one-character residue clauses of (*seqbag).Replace.
+//@ func (*align).Replace
+//@   props C15
+//@   requires wfa(a)
+//@   ensures a.length == old(a.length) && nrows(a) == old(nrows(a)) && (forall r :: 0 <= r && r < nrows(a) ==> row(a, r) == old(row(a, r)) && rowname(a, r) == old(rowname(a, r)))
+//@   ensures !regex && len(old) >= 1 && len(old) == len(new) ==> forall r :: 0 <= r && r < nrows(a) ==> rowlen(a, r) == old(rowlen(a, r))
+// NOT COVERED (proof found for the function alone, `unknown` in the full C15 run): ensures !regex && len(old) >= 1 && len(old) == len(new) ==> forall r, c :: 0 <= r && r < nrows(a) && 0 <= c && c < rowlen(a, r) ==> cell(a, r, c) == old(cell(a, r, c)) || c15b_inocc(a, old, new, r, c)
+//@   ensures !regex && len(old) == 1 && len(new) == 1 ==> forall r, c :: 0 <= r && r < nrows(a) && 0 <= c && c < rowlen(a, r) ==> cell(a, r, c) == (old(cell(a, r, c)) == old[0] ? new[0] : old(cell(a, r, c)))
+//@   modifies field(seq.sequence)
+
+// the length check: stops (returns true) exactly on a row whose length differs from the cached length, and then sets the error
+//@ func (*align).Replace$1
+//@   props C15
+//@   requires a != nil
+//@   ensures result == (len(s) != a.length) && (result ==> err != nil)
+//@   modifies nothing
